@@ -18,7 +18,31 @@ $BIN/llvm-profdata merge -sparse $PROF/*.profraw -o $PROF/all.profdata
 mkdir -p /verif/notes
 OUT=/verif/notes/coverage_$T.txt
 $BIN/llvm-cov report /verif/target/cov/release/cteverif -instr-profile=$PROF/all.profdata --ignore-filename-regex='(\.cargo|rustc|/verif/)' 2>/dev/null > $OUT
-echo "--- functions never executed ---" >> $OUT
-$BIN/llvm-cov report /verif/target/cov/release/cteverif -instr-profile=$PROF/all.profdata --ignore-filename-regex='(\.cargo|rustc|/verif/)' -show-functions /repo/*/src/*.rs /repo/*/src/*/*.rs /repo/*/src/*/*/*.rs /repo/*/src/*/*/*/*.rs 2>/dev/null | awk '$NF=="0.00%" || /^File/ {print}' | rustfilt 2>/dev/null >> $OUT || true
+$BIN/llvm-cov export -format=lcov /verif/target/cov/release/cteverif -instr-profile=$PROF/all.profdata --ignore-filename-regex='(\.cargo|rustc|/verif/)' 2>/dev/null > $PROF/all.lcov
+python3 - $PROF/all.lcov >> $OUT <<'PY'
+import sys,re
+cur=None; un={}
+for l in open(sys.argv[1]):
+    l=l.strip()
+    if l.startswith('SF:'): cur=l[3:]; un[cur]=[]
+    elif l.startswith('DA:'):
+        n,c=l[3:].split(',')[:2]
+        if c=='0': un[cur].append(int(n))
+print("\n--- lines never executed (file: ranges), test modules excluded ---")
+for f in sorted(un):
+    if not f.startswith('/repo/') or not un[f]: continue
+    try: src=open(f,encoding='utf-8',errors='replace').read().split('\n')
+    except Exception: continue
+    # cut at the first #[cfg(test)]
+    cut=next((i+1 for i,t in enumerate(src) if t.strip().startswith('#[cfg(test)]')),10**9)
+    ls=[n for n in un[f] if n<cut]
+    if not ls: continue
+    r=[];a=b=ls[0]
+    for n in ls[1:]:
+        if n==b+1: b=n
+        else: r.append((a,b)); a=b=n
+    r.append((a,b))
+    print(f"{f}: "+", ".join(f"{a}" if a==b else f"{a}-{b}" for a,b in r))
+PY
 rm -rf $PROF
-tail -n +1 $OUT | head -70
+sed -n '/lines never executed/,$p' $OUT | cut -c1-400
